@@ -62,13 +62,27 @@ def _norm(v):
     return v
 
 
+import re as _re
+_REF_RE = _re.compile(r"^(?:[^!]+!)?\$?[A-Za-z]{1,3}\$?\d+(?::\$?[A-Za-z]{1,3}\$?\d+)?$")
+
+
+def refify(tree):
+    """Expected trees are written with bare reference texts ('A1', 'Sheet2!A1:B2'); in the trees read back a reference is
+    ('ref', text) - so that a text literal can never pass for a reference or the other way round."""
+    if isinstance(tree, str) and _REF_RE.match(tree):
+        return ('ref', tree)
+    if isinstance(tree, tuple) and tree and tree[0] in ('op', 'call'):
+        return tree[:2] + tuple(refify(x) for x in tree[2:])
+    return tree
+
+
 def parse_tree(ctx, formula, models=None):
     """Nested tuple of the tree FormulaParser.parse builds for the formula: ('op', text, operands...), reference texts,
     literal values; ('raise', class) when parsing or reading the tree fails."""
     pm = ctx.mod('parser')
     am = ctx.mod('ast_nodes')
     models = dict(models if models is not None else operator_models(ctx))
-    models.setdefault(AN + 'RangeNode.eval', lambda self_, context: self_.get('token').get('tvalue'))
+    models.setdefault(AN + 'RangeNode.eval', lambda self_, context: ('ref', self_.get('token').get('tvalue')))
     world = World()
     it = Interp(ctx.a, pm, {'p': Rec(cls='pkg:parser:FormulaParser'), 'f': formula}, inline_pkg=True, world=world)
     out = it.run([ast.parse('return p.parse(f, {})').body[0]])
